@@ -392,7 +392,7 @@ def main(argv):
     observed = {
         "counters": dict(sorted(acc.counters.items())),
         "sets": {
-            k: {"n": len(v), "examples": sorted(v)[:12]}
+            k: {"n": len(v), "examples": sorted(v)[:40]}
             for k, v in sorted(acc.sets.items())
         },
         "shards": len(descs),
